@@ -110,6 +110,186 @@ fn undo_private_renames(rel: &str, file: &mut syn::File) {
     });
 }
 
+/// Every function of a file with its parameters: (owner, name, [(parameter name, parameter type)]). Owner is "" for
+/// free functions, the self type for inherent impls and `Type/Trait` for trait impls.
+pub fn fn_params(file: &syn::File) -> Vec<(String, String, Vec<(String, String)>)> {
+    fn params(sig: &syn::Signature) -> Vec<(String, String)> {
+        sig.inputs
+            .iter()
+            .filter_map(|a| match a {
+                syn::FnArg::Typed(pt) => match &*pt.pat {
+                    syn::Pat::Ident(pi) if pi.subpat.is_none() => Some((pi.ident.to_string(), tsc(&pt.ty))),
+                    other => Some((format!("<{}>", tsc(other)), tsc(&pt.ty))),
+                },
+                syn::FnArg::Receiver(_) => None,
+            })
+            .collect()
+    }
+    let mut out = vec![];
+    for it in &file.items {
+        match it {
+            syn::Item::Fn(f) => out.push((String::new(), f.sig.ident.to_string(), params(&f.sig))),
+            syn::Item::Impl(i) => {
+                let owner = match trait_name(i) {
+                    Some(t) => format!("{}/{}", self_ty_name(i), t),
+                    None => self_ty_name(i),
+                };
+                for ii in &i.items {
+                    if let syn::ImplItem::Fn(f) = ii {
+                        out.push((owner.clone(), f.sig.ident.to_string(), params(&f.sig)));
+                    }
+                }
+            }
+            _ => {}
+        }
+    }
+    out
+}
+
+/// A parameter that was merely renamed is given its reference name back (refdata/fn_params.json lists every function
+/// of the reviewed tree with its parameter names and types): for a function that still exists under the same owner
+/// and name with the same parameter types, each parameter whose name differs is renamed inside that function, unless
+/// the reference name is already used there. Rules are written against the reference names.
+fn undo_param_renames(rel: &str, file: &mut syn::File) {
+    let Some(verif) = std::env::var_os("VERIF_DIR") else { return };
+    let Ok(txt) = std::fs::read_to_string(std::path::Path::new(&verif).join("refdata/fn_params.json")) else { return };
+    let Ok(v) = serde_json::from_str::<serde_json::Value>(&txt) else { return };
+    let Some(refs) = v.get(rel).and_then(|x| x.as_array()) else { return };
+    let mut reference: std::collections::BTreeMap<(String, String), Option<Vec<(String, String)>>> = Default::default();
+    for r in refs {
+        let (Some(o), Some(n), Some(ps)) = (r.get(0).and_then(|x| x.as_str()), r.get(1).and_then(|x| x.as_str()), r.get(2).and_then(|x| x.as_array())) else { continue };
+        let ps: Vec<(String, String)> = ps.iter().filter_map(|p| Some((p.get(0)?.as_str()?.to_string(), p.get(1)?.as_str()?.to_string()))).collect();
+        // the same owner/name twice (cfg alternatives): ambiguous, leave alone
+        reference.entry((o.to_string(), n.to_string())).and_modify(|e| *e = None).or_insert(Some(ps));
+    }
+    fn rename_in(sig: &mut syn::Signature, block: &mut syn::Block, want: &[(String, String)]) {
+        let cur: Vec<(String, String)> = sig
+            .inputs
+            .iter()
+            .filter_map(|a| match a {
+                syn::FnArg::Typed(pt) => match &*pt.pat {
+                    syn::Pat::Ident(pi) if pi.subpat.is_none() => Some((pi.ident.to_string(), tsc(&pt.ty))),
+                    other => Some((format!("<{}>", tsc(other)), tsc(&pt.ty))),
+                },
+                syn::FnArg::Receiver(_) => None,
+            })
+            .collect();
+        if cur.len() != want.len() || cur.iter().zip(want).any(|(c, w)| c.1 != w.1) {
+            return;
+        }
+        let mut body_toks = vec![];
+        flat_tokens(block.to_token_stream(), &mut body_toks);
+        let mut map: std::collections::BTreeMap<String, String> = Default::default();
+        for (c, w) in cur.iter().zip(want) {
+            if c.0 != w.0 && !c.0.starts_with('<') && !w.0.starts_with('<') && !body_toks.contains(&w.0) && !cur.iter().any(|x| x.0 == w.0) {
+                map.insert(c.0.clone(), w.0.clone());
+            }
+        }
+        if map.is_empty() {
+            return;
+        }
+        let mut r = IdentRenamer(&map);
+        for a in sig.inputs.iter_mut() {
+            if let syn::FnArg::Typed(pt) = a {
+                syn::visit_mut::VisitMut::visit_pat_mut(&mut r, &mut pt.pat);
+            }
+        }
+        syn::visit_mut::VisitMut::visit_block_mut(&mut r, block);
+    }
+    for it in file.items.iter_mut() {
+        match it {
+            syn::Item::Fn(f) => {
+                if let Some(Some(want)) = reference.get(&(String::new(), f.sig.ident.to_string())) {
+                    rename_in(&mut f.sig, &mut f.block, want);
+                }
+            }
+            syn::Item::Impl(i) => {
+                let owner = match trait_name(i) {
+                    Some(t) => format!("{}/{}", self_ty_name(i), t),
+                    None => self_ty_name(i),
+                };
+                for ii in i.items.iter_mut() {
+                    if let syn::ImplItem::Fn(f) = ii {
+                        if let Some(Some(want)) = reference.get(&(owner.clone(), f.sig.ident.to_string())) {
+                            rename_in(&mut f.sig, &mut f.block, want);
+                        }
+                    }
+                }
+            }
+            _ => {}
+        }
+    }
+}
+
+/// Renames identifiers (also inside macro arguments and format strings' inline arguments are left alone).
+struct IdentRenamer<'a>(&'a std::collections::BTreeMap<String, String>);
+impl<'a> IdentRenamer<'a> {
+    fn stream(&self, ts: proc_macro2::TokenStream) -> proc_macro2::TokenStream {
+        ts.into_iter()
+            .map(|tt| match tt {
+                proc_macro2::TokenTree::Ident(i) => match self.0.get(&i.to_string()) {
+                    Some(n) => proc_macro2::TokenTree::Ident(proc_macro2::Ident::new(n, i.span())),
+                    None => proc_macro2::TokenTree::Ident(i),
+                },
+                proc_macro2::TokenTree::Group(g) => {
+                    let mut ng = proc_macro2::Group::new(g.delimiter(), self.stream(g.stream()));
+                    ng.set_span(g.span());
+                    proc_macro2::TokenTree::Group(ng)
+                }
+                proc_macro2::TokenTree::Literal(l) => {
+                    // inline format arguments: "{name}" / "{name:?}"
+                    let t = l.to_string();
+                    if t.starts_with('"') && t.contains('{') {
+                        let mut nt = t.clone();
+                        for (from, to) in self.0 {
+                            let re = regex::Regex::new(&format!(r"\{{{}(\}}|:)", regex::escape(from))).unwrap();
+                            nt = re.replace_all(&nt, format!("{{{}$1", to)).to_string();
+                        }
+                        if nt != t {
+                            if let Ok(lit) = nt.parse::<proc_macro2::Literal>() {
+                                return proc_macro2::TokenTree::Literal(lit);
+                            }
+                        }
+                    }
+                    proc_macro2::TokenTree::Literal(l)
+                }
+                other => other,
+            })
+            .collect()
+    }
+}
+impl<'a> syn::visit_mut::VisitMut for IdentRenamer<'a> {
+    fn visit_ident_mut(&mut self, i: &mut proc_macro2::Ident) {
+        if let Some(n) = self.0.get(&i.to_string()) {
+            *i = proc_macro2::Ident::new(n, i.span());
+        }
+    }
+    fn visit_member_mut(&mut self, _m: &mut syn::Member) {
+        // field names are not locals
+    }
+    fn visit_expr_method_call_mut(&mut self, mc: &mut syn::ExprMethodCall) {
+        // the method name is not a local
+        self.visit_expr_mut(&mut mc.receiver);
+        for a in mc.args.iter_mut() {
+            self.visit_expr_mut(a);
+        }
+    }
+    fn visit_field_value_mut(&mut self, fv: &mut syn::FieldValue) {
+        // shorthand `S { x }` with x renamed becomes `S { x: new }`
+        if fv.colon_token.is_none() {
+            if let syn::Member::Named(m) = &fv.member {
+                if self.0.contains_key(&m.to_string()) {
+                    fv.colon_token = Some(Default::default());
+                }
+            }
+        }
+        self.visit_expr_mut(&mut fv.expr);
+    }
+    fn visit_macro_mut(&mut self, m: &mut syn::Macro) {
+        m.tokens = self.stream(std::mem::take(&mut m.tokens));
+    }
+}
+
 /// names of the private functions of `rel` in the reviewed tree (refdata/private_fns.json); None if not listed
 fn reviewed_private_fn_names(rel: &str) -> Option<std::collections::BTreeSet<String>> {
     let verif = std::env::var_os("VERIF_DIR")?;
@@ -125,6 +305,7 @@ pub fn load(repo: &Path, rel: &str) -> Result<Src, String> {
     let mut file = syn::parse_file(&text).map_err(|e| format!("{}: parse error: {}", rel, e))?;
     strip_tests(&mut file.items);
     undo_private_renames(rel, &mut file);
+    undo_param_renames(rel, &mut file);
     if std::env::var("VERIF_NO_NORMALIZE").is_err() {
         let reviewed = reviewed_private_fn_names(rel);
         crate::normalize::normalize_file_with(&mut file, reviewed.as_ref());
